@@ -246,8 +246,18 @@ partial def pyApply (op : POp) (vs : List PV) : Except PE PV :=
   | "or" => match vs with | [a, b] => .ok (if truthy a then a else b) | _ => .error .typeErr
   | "str" => match vs with | [a] => .ok (.str (pyStr a)) | _ => .error .typeErr
   | "sum" => match vs with
-    | [.list xs] => (xs.foldlM (m := Except PE) (fun acc x => match asInt x with
-        | some i => Except.ok (acc + i) | Option.none => Except.error PE.typeErr) (0 : Int)).map PV.int
+    | [.list xs] =>
+      -- 0 + x0 + x1 + …: exact; the result is a float from the first float element on
+      let step (acc : Int × Nat × Bool) (x : PV) : Except PE (Int × Nat × Bool) :=
+        match x, asRat x with
+        | .float _ _, some (n, d) => .ok (acc.1 * d + n * acc.2.1, acc.2.1 * d, true)
+        | _, some (n, d) => .ok (acc.1 * d + n * acc.2.1, acc.2.1 * d, acc.2.2)
+        | _, Option.none => .error .typeErr
+      match xs.foldlM (m := Except PE) step ((0 : Int), (1 : Nat), false) with
+      | .error e => .error e
+      | .ok (n, d, isF) =>
+        let g := Nat.gcd n.natAbs d
+        if isF then .ok (.float (n / g) (d / g)) else .ok (.int (n / d))
     | [.str s] => if s.isEmpty then .ok (.int 0) else .error .typeErr     -- sum('') == 0
     | _ => .error .typeErr
   | "mklist" => .ok (.list vs)
